@@ -162,6 +162,7 @@ func runCheck(id, tier string) int {
 	}
 	r.Count("packages_loaded_with_syntax", len(p.All))
 	r.Count("function_bodies_in_loaded_packages", p.NFuncs)
+	activeProg = p
 	pc.Run(p, r)
 	if tier == "thorough" {
 		runMutants(pc, p, r)
